@@ -109,6 +109,7 @@ def handle (j : J) : Except String J := do
       codec := wireCodec
       policy := ← toPolicy (cfgJ.getD "policy")
       ownerFix := ← toOwnerFix (cfgJ.getD "ownerFix")
+      createEnabled := (match cfgJ.get? "createEnabled" with | some (.bool b) => b | _ => true)
       createDelay := ← toJVal (cfgJ.getD "createDelay")
       createView := ← toJVal (cfgJ.getD "createView") }
     let t ← toJVal (j.getD "t")
